@@ -453,7 +453,11 @@ func (c *Client) Update(key string, value []byte, exp uint64, opts ...interface{
 		err = wrongSeq(cur)
 		if s.mockErrs {
 			// the dialect of the package's own mock store, which the library's error patterns treat as the same thing
+			// (that store tells a missing record from a changed one)
 			err = errors.New("revision mismatch")
+			if s.data[key] == nil {
+				err = errors.New("key not found")
+			}
 		}
 		s.tr.logf("apply %d fail wrongseq", o.id)
 	} else {
@@ -543,6 +547,7 @@ type wItem struct {
 }
 
 type refWatch struct {
+	handed bool // returned to the library by a Watch call that succeeded
 	s        *RefStore
 	id       int
 	inst     int
@@ -558,6 +563,24 @@ type refWatch struct {
 
 func (w *refWatch) Updates() <-chan leader.Entry { return w.ch }
 func (w *refWatch) Stop()                        { w.stopOnce.Do(func() { close(w.stopCh) }) }
+
+// openWatchers counts the watchers that were handed to the library and never stopped by it.
+func (s *RefStore) openWatchers() int {
+	s.mu.Lock()
+	defer s.mu.Unlock()
+	n := 0
+	for _, w := range s.watches {
+		if !w.handed {
+			continue
+		}
+		select {
+		case <-w.stopCh:
+		default:
+			n++
+		}
+	}
+	return n
+}
 
 func (w *refWatch) push(it wItem) {
 	w.mu.Lock()
@@ -675,6 +698,7 @@ func (c *Client) Watch(key string, opts ...interface{}) (leader.Watcher, error) 
 		return nil, storeErr("timeout")
 	}
 	s.tr.logf("ret %d ok %d", o.id, w.id)
+	w.handed = true
 	go w.pump()
 	return w, nil
 }
